@@ -75,6 +75,9 @@ def gen_routing(seed, opts=None):
                      'dlen': rng.randint(8, 200)})
     plan['requests'] = reqs
     plan['horizon'] = 5.0
+    if rng.random() < 0.25:
+        # the routing handler sits on the client and the server asks (routing works in both directions)
+        plan['direction'] = 's2c'
     if (opts or {}).get('close'):
         # route handlers that take their time, and an endpoint that is closed while some of them are still running
         plan['route_delay'] = _pick(rng, [(1, 0.004), (1, 0.05), (1, 1.0)])
@@ -253,13 +256,18 @@ def _run(world, plan):
             else:
                 raise Exception('Authentication rejected')
 
+    flip = plan.get('direction') == 's2c'
+    routed_ep = 'client' if flip else 'server'  # where the RoutingRequestHandler lives
+    asking_ep = 'server' if flip else 'client'  # who issues the requests
+
     class RecRouting(RoutingRequestHandler):
         async def on_close(self, rsocket, exception=None):
-            world.rec('hnd', ep='server', method='on_close')
+            world.rec('hnd', ep=routed_ep, method='on_close')
 
     def boot():
         ct, st, pump = make_transports(world, plan, link)
-        server = RSocketServer(st, handler_factory=lambda: RecRouting(router, verifier),
+        H = app.handler_class()
+        server = RSocketServer(st, handler_factory=(lambda: H(world, 'server', {}, None)) if flip else (lambda: RecRouting(router, verifier)),
                                fragment_size_bytes=plan['server'].get('fragment'),
                                keep_alive_period=timedelta(seconds=1000), max_lifetime_period=timedelta(seconds=10000))
         world.tap_endpoint('server', server)
@@ -270,7 +278,7 @@ def _run(world, plan):
         async def provider():
             yield ct
 
-        client = RSocketClient(provider(), handler_factory=lambda: H(world, 'client', {}, None),
+        client = RSocketClient(provider(), handler_factory=(lambda: RecRouting(router, verifier)) if flip else (lambda: H(world, 'client', {}, None)),
                                metadata_encoding=WellKnownMimeTypes.MESSAGE_RSOCKET_COMPOSITE_METADATA,
                                fragment_size_bytes=plan['client'].get('fragment'),
                                keep_alive_period=timedelta(seconds=1000), max_lifetime_period=timedelta(seconds=10000))
@@ -296,7 +304,7 @@ def _run(world, plan):
         return composite(*items)
 
     def issue(rq):
-        client = world.endpoints['client']
+        client = world.endpoints[asking_ep]
         iid = rq['id']
         kind = KIND_OF[rq['type']]
         md = build_metadata(rq)
@@ -438,11 +446,12 @@ def oracle_c08_routing(world):
     h = world.history
     mark = next((e['seq'] for e in h if e['k'] == 'mark'), float('inf'))
     fnf_sids = {}
+    ask_dir, ans_dir = ('s2c', 'c2s') if plan.get('direction') == 's2c' else ('c2s', 's2c')
     for e in h:
-        if e['k'] == 'wire' and e['dir'] == 'c2s' and e['f']['type'] == 'REQUEST_FNF' and e['seq'] < mark:
+        if e['k'] == 'wire' and e['dir'] == ask_dir and e['f']['type'] == 'REQUEST_FNF' and e['seq'] < mark:
             fnf_sids.setdefault(e['f']['sid'], e['seq'])
     for e in h:
-        if e['k'] != 'wire' or e['dir'] != 's2c' or e['seq'] > mark:
+        if e['k'] != 'wire' or e['dir'] != ans_dir or e['seq'] > mark:
             continue
         f = e['f']
         if f['sid'] in fnf_sids and e['seq'] > fnf_sids[f['sid']]:
